@@ -48,7 +48,7 @@ def mutate(rng, src):
     toks = TOKEN.findall(src)
     idx = [i for i, t in enumerate(toks) if not t.isspace()]
     if not idx: return src, "none"
-    kind = rng.choice(["type", "type", "del", "dup_line", "swap_ident", "big_lit", "del_span", "zero_lit", "ins_tok", "rename_ident", "rename_ident"])
+    kind = rng.choice(["type", "type", "del", "dup_line", "swap_ident", "big_lit", "del_span", "zero_lit", "ins_tok", "rename_ident", "rename_ident", "brace_field", "brace_field"])
     if kind == "type":
         c = [i for i in idx if toks[i] in TYPES]
         if c:
@@ -63,6 +63,21 @@ def mutate(rng, src):
         c = [i for i in idx if re.match(r"[A-Za-z_]", toks[i])]
         if len(c) >= 2:
             a, b = rng.sample(c, 2); toks[a], toks[b] = toks[b], toks[a]
+    elif kind == "brace_field":
+        # rename / duplicate / drop ONE field name inside a `Name { ... }` group (struct pattern or struct expression)
+        groups = [m for m in re.finditer(r"\b[A-Z][A-Za-z0-9_]*(?:<[^<>{}]*>)?\s*\{([^{}]*)\}", src)]
+        if groups:
+            m = rng.choice(groups)
+            inner = m.group(1)
+            names = [n for n in re.finditer(r"\b[a-z_][a-z0-9_]*\b", inner)]
+            if names:
+                n = rng.choice(names)
+                how = rng.choice(["zz", "zz", n.group(0) + "_x", rng.choice(names).group(0)])
+                a, b = m.start(1) + n.start(), m.start(1) + n.end()
+                return src[:a] + how + src[b:], kind
+        kind = "rename_ident"
+        c = [i for i in idx if re.match(r"[a-z_A-Z][A-Za-z0-9_]*$", toks[i])]
+        if c: toks[rng.choice(c)] = "zz"
     elif kind == "rename_ident":
         # replace ONE occurrence of an identifier (field, variant, function, type name) by a fresh or a sibling name
         c = [i for i in idx if re.match(r"[a-z_A-Z][A-Za-z0-9_]*$", toks[i]) and toks[i] not in ("library", "contract", "script", "pub", "fn", "let", "match", "use", "mod", "struct", "enum", "impl", "trait", "self", "Self", "abi", "storage", "if", "else", "for", "while", "return", "const")]
@@ -134,7 +149,7 @@ def run(ctx):
     cases = []
     for name, src in SEEDS.items():
         cases.append((name, "main.sw" if src.startswith("contract") else "lib.sw", src, "seed", name))
-    ntpl = 10 if ctx.quick else 80
+    ntpl = 24 if ctx.quick else 120
     for tname, files in TEMPLATES.items():
         entry = "main.sw" if "main.sw" in files else "lib.sw"
         cases.append((tname, entry, dict(files), "template", tname))
